@@ -123,6 +123,10 @@ type W struct {
 	violBySig map[string]int
 	extra     map[string]int64
 
+	// State is per-worker scratch for drivers (e.g. results retained across cases to check that a
+	// later call does not change a slice returned earlier).
+	State map[string]interface{}
+
 	// Context for panic attribution; set by drivers before risky calls (plain stores, cheap).
 	Op      string
 	A, B, C int64
@@ -140,6 +144,7 @@ func newW(id int, cfg *Config) *W {
 		samples:   map[string][]json.RawMessage{},
 		violBySig: map[string]int{},
 		extra:     map[string]int64{},
+		State:     map[string]interface{}{},
 	}
 }
 
